@@ -65,12 +65,13 @@ class _OsProxy:
 
 class World:
     def __init__(self, program: dict, chooser, *, post_yields=False, max_steps=6000, transport="popen",
-                 chunking="all", worker_backend="thread", cut=None, line_level=None):
+                 chunking="all", worker_backend="thread", cut=None, line_level=None, reconfigure=None):
         global CURRENT
         CURRENT = self
         self.program = program
         self.s = Sched(chooser, max_steps=max_steps, post_yields=post_yields)
         self.transport = transport
+        self.reconfigure = reconfigure  # (py2str_as_py3str, py3str_as_py2str): Gateway.reconfigure() right after the gateway is up
         s = self.s
         if line_level:
             import execnet.gateway as _g
@@ -156,8 +157,8 @@ class World:
             return item
         if isinstance(item, tuple) and len(item) == 2 and isinstance(item[0], int) and isinstance(item[1], bytes):
             return item[0] if item[1] == b"B" * len(item[1]) else -7  # -7: the payload bytes were damaged
-        if isinstance(item, dict) and "k" in item:
-            item = item["k"][0]
+        if isinstance(item, dict) and ("k" in item or b"k" in item):  # (the key arrives as bytes on a gateway reconfigured that way)
+            item = item["k" if "k" in item else b"k"][0]
         if isinstance(item, gateway_base.Channel):
             return 100000 + item.id
         return 0
@@ -205,6 +206,8 @@ class World:
         self.gw = Gateway(self.io_i, XSpec("popen//id=g"))
         self.gw._group = self.group
         self.group.members.append(self.gw)
+        if self.reconfigure is not None:
+            self.gw.reconfigure(py2str_as_py3str=self.reconfigure[0], py3str_as_py2str=self.reconfigure[1])
         for th in self.program["threads"]:
             s.spawn(th["name"], self.run_thread, (th,))
         if getattr(self, "_dead_from_start", False):
@@ -359,8 +362,8 @@ class World:
                         except Exception as e:
                             ret("receive", c, 0, self.classify(e))
                             break
-                        if isinstance(x, dict) and "k" in x:
-                            x = x["k"][0]
+                        if isinstance(x, dict) and ("k" in x or b"k" in x):
+                            x = x["k" if "k" in x else b"k"][0]
                         if isinstance(x, gateway_base.Channel):
                             if len(op) > 3:
                                 ns[op[3]] = x
@@ -392,8 +395,8 @@ class World:
                     call("receive", c)
                     try:
                         x = c.receive()
-                        if isinstance(x, dict) and "k" in x:
-                            x = x["k"][0]
+                        if isinstance(x, dict) and ("k" in x or b"k" in x):
+                            x = x["k" if "k" in x else b"k"][0]
                         ns[op[2]] = x
                         ret("receive", c, self.tok_of(x))
                     except Exception as e:
@@ -520,6 +523,25 @@ class World:
                 elif k == "hasreceiver":
                     call("hasreceiver")
                     ret("hasreceiver", None, 0, "true" if self.gw.hasreceiver() else "false")
+                elif k == "status":
+                    # remote_status() uses a channel of its own: its id (seen on the STATUS frame) must be as fresh as any other
+                    seen = []
+                    orig = self.gw._send
+
+                    def spy(msgcode, channelid=0, data=b"", _orig=orig, _seen=seen):
+                        if msgcode == gateway_base.Message.STATUS:
+                            _seen.append(channelid)
+                        return _orig(msgcode, channelid, data)
+
+                    self.gw._send = spy
+                    call("status")
+                    try:
+                        st = self.gw.remote_status()
+                        self.gw._send = orig
+                        self.ev("ret", side, "newchannel", seen[0] if seen else 0, 0, "ok" if st is not None else "bad-status")
+                    except Exception as e:
+                        self.gw._send = orig
+                        self.ev("ret", side, "newchannel", seen[0] if seen else 0, 0, self.classify(e))
                 elif k == "cut":
                     p = self.p_wi if op[1] == "w>i" else self.p_iw
                     p.cut_here()
